@@ -304,6 +304,13 @@ pub fn check_with(c: &EncCase, strict: Strictness, ctx: &Ctx) -> Verdict {
             ),
         };
         if strict == Strictness::Explore && ctx.is_known(FAMILY_SIG).is_some() {
+            // the property's explicit bound (plain ASCII / plain Base256 of the whole message) is never
+            // subject to the open finding: none of its listed instances exceeds it
+            if let Some((bc, what)) = bound {
+                if crate_cap.map_or(true, |cc| cc > bc) {
+                    return fail(format!("{} [not attributable to the open planner finding: {} of the whole message fits capacity {}, the bound the property states explicitly]", reason, what, bc));
+                }
+            }
             // mechanical root-cause test for the open finding "planner search is not exhaustive"
             let attributed = match (&dm, crate_cap) {
                 (Some(_), Some(cc)) => {
@@ -648,6 +655,8 @@ fn run_stages(ctx: &Arc<Ctx>) {
             EncCase { data, list, modes, macros: false, fnc1: false, eci: None, stratum: "capacity-shaped" }
         })
     }, |c| check_with(c, Strictness::Explore, ctx));
+    // Base256 fields at their limits (249/250 bytes, exact fits of every size, the longest field of 1555 bytes)
+    ctx.run_enumerated("b256-limit", "enc-explore", super::c18::b256_limit_cases(), None, |c| check_with(c, Strictness::Explore, ctx));
     ctx.run_generated("explore-headers", "enc-explore", ctx.cases(60_000, 1_000_000), || g_enc_case(o), |c| check_with(c, Strictness::Explore, ctx));
 }
 
